@@ -48,6 +48,7 @@ class Ctx:
         self.model = None  # a model of the current PC (completed with defaults)
         self.side = []  # nonlinear side conditions (sqrt), kept out of branch queries
         self.sqrt_cache = {}
+        self.sqrt_args = {}
         self.uf_cache = {}
         self.inputs = {}  # name -> z3 const
         self.fresh = 0
@@ -482,10 +483,24 @@ def sym_sqrt(x):
             return SymReal(_frac_val(Fraction(n, d)))
     if c.branch(e < 0):
         raise ValueError("math domain error")
+    try:
+        e = z3.simplify(e, som=True)  # canonical polynomial form: equal polynomials share one sqrt symbol
+    except z3.Z3Exception:
+        pass
     key = e.sexpr()
+    if key not in c.sqrt_cache:
+        for k2, (e2, s2) in c.sqrt_args.items():  # same polynomial written differently?
+            try:
+                dz = z3.simplify(e - e2, som=True)
+            except z3.Z3Exception:
+                continue
+            if z3.is_rational_value(dz) and dz.numerator_as_long() == 0:
+                c.sqrt_cache[key] = s2
+                break
     if key not in c.sqrt_cache:
         s = z3.Real(c.fresh_name("sqrt"))
         c.sqrt_cache[key] = s
+        c.sqrt_args[key] = (e, s)
         c.add(s >= 0)
         c.side.append(s * s == e)
     return SymReal(c.sqrt_cache[key])
@@ -622,14 +637,23 @@ class MathFacade:
     def acos(x):
         if not _isinstance(x, SymReal):
             return _math.acos(x)
-        if _ctx().branch(z3.Or(x.e < -1, x.e > 1)):
+        c = _ctx()
+        if c.branch(z3.Or(x.e < -1, x.e > 1)):
             raise ValueError("math domain error")
-        return uninterpreted("acos", x)
+        r = uninterpreted("acos", x)
+        c.uf_cache[r.e.sexpr()] = x
+        # range of the principal value: [0, pi] (pi as the exact value of the binary64 constant is irrelevant here)
+        c.add(r.e >= 0)
+        return r
 
     @staticmethod
     def sin(x):
         if not _isinstance(x, SymReal):
             return _math.sin(x)
+        c = _ctx()
+        t = c.uf_cache.get(x.e.sexpr())
+        if t is not None:  # sin(acos t) = sqrt(1 - t^2)
+            return sym_sqrt(1 - t * t)
         return uninterpreted("sin", x)
 
     @staticmethod
